@@ -198,4 +198,114 @@ pub open spec fn g_build(s: GEl, p: Seq<RdItem>, known: Seq<String>) -> (Option<
     }
 }
 
+// ---- the public entry points as spec functions ----
+/// abs(Element::new(nm, [])) - the synthetic parent both entry points parse below; its name never matters
+pub open spec fn g_root(nm: String) -> GEl {
+    GEl { name: nm, text_some: false, standalone: true, count: 1, attrs: Seq::empty(), kids: Seq::empty(), position: None }
+}
+/// the wrapper extend_struct builds around the previous root
+pub open spec fn g_wrap(nm: String, r: GEl) -> GEl {
+    GEl { kids: seq![Necessity::Mandatory(GEl { position: if r.position is None { Some(0usize) } else { r.position }, ..r })], ..g_root(nm) }
+}
+/// first child of the tree g_build produces below `s`, if the stream is accepted and there is one
+pub open spec fn g_first_child(s: GEl, p: Seq<RdItem>) -> Option<GEl> {
+    match g_build(s, p, Seq::empty()).0 {
+        Some(w) => if w.kids.len() > 0 { Some(w.kids[0].val()) } else { None },
+        None => None,
+    }
+}
+/// the stream has a Start/Empty event at this nesting level before it ends (C08: "the input contains an element")
+pub open spec fn has_elem(p: Seq<RdItem>) -> bool
+    decreases p.len()
+{
+    if p.len() == 0 { false } else {
+        let rest = p.drop_first();
+        match p[0] {
+            RdItem::Err => false,
+            RdItem::Ev(AbsEv::Eof) => false,
+            RdItem::Ev(AbsEv::End) => false,
+            RdItem::Ev(AbsEv::Comment) => has_elem(rest),
+            RdItem::Ev(AbsEv::Decl) => has_elem(rest),
+            RdItem::Ev(AbsEv::PI) => has_elem(rest),
+            RdItem::Ev(AbsEv::DocType) => has_elem(rest),
+            RdItem::Ev(AbsEv::Text(b)) => has_elem(rest),
+            RdItem::Ev(AbsEv::CData(b)) => has_elem(rest),
+            RdItem::Ev(AbsEv::Empty(t)) => true,
+            RdItem::Ev(AbsEv::Start(t)) => true,
+        }
+    }
+}
+pub proof fn lemma_g_idx_bounds(kids: Seq<Necessity<GEl>>, name: String)
+    ensures 0 <= g_idx(kids, name) <= kids.len(),
+    decreases kids.len()
+{
+    if kids.len() > 0 && kids[0].val().name != name { lemma_g_idx_bounds(kids.drop_first(), name); }
+}
+pub proof fn lemma_parse_tag_kids_len(s: GEl, t: Tag, known: Seq<String>, content: Option<Seq<RdItem>>)
+    ensures g_parse_tag(s, t, known, content).0 is Some ==> ({
+        let s1 = g_parse_tag(s, t, known, content).0->Some_0;
+        s1.kids.len() >= 1 && s1.kids.len() >= s.kids.len() && s1.name == s.name
+    }),
+{
+    lemma_g_idx_bounds(s.kids, utf8_str(t.name));
+}
+pub proof fn lemma_tag_opt_frame(s: GEl, n: String, snap: Map<String, u32>)
+    ensures
+        g_tag_opt(s, n, snap).kids.len() == s.kids.len(),
+        g_tag_opt(s, n, snap).name == s.name,
+        g_tag_opt(s, n, snap).position == s.position,
+{}
+/// a successful build never loses children of the node it builds below, keeps its name, and yields at least one
+/// child exactly when there was one before or the stream has an element at this level
+pub proof fn lemma_build_kids_len(s: GEl, p: Seq<RdItem>, known: Seq<String>)
+    ensures
+        g_build(s, p, known).0 is Some ==> ({
+            let w = g_build(s, p, known).0->Some_0;
+            &&& w.kids.len() >= s.kids.len()
+            &&& w.name == s.name
+            &&& (w.kids.len() > 0 <==> (s.kids.len() > 0 || has_elem(p)))
+        }),
+    decreases p.len()
+{
+    if p.len() > 0 {
+        let rest = p.drop_first();
+        match p[0] {
+            RdItem::Err => {},
+            RdItem::Ev(AbsEv::Eof) => {},
+            RdItem::Ev(AbsEv::End) => {},
+            RdItem::Ev(AbsEv::Comment) => { lemma_build_kids_len(s, rest, known); },
+            RdItem::Ev(AbsEv::Decl) => { lemma_build_kids_len(s, rest, known); },
+            RdItem::Ev(AbsEv::PI) => { lemma_build_kids_len(s, rest, known); },
+            RdItem::Ev(AbsEv::DocType) => { lemma_build_kids_len(s, rest, known); },
+            RdItem::Ev(AbsEv::Text(b)) => { if utf8_ok(b) { lemma_build_kids_len(GEl { text_some: true, ..s }, rest, known); } },
+            RdItem::Ev(AbsEv::CData(b)) => { if utf8_ok(b) { lemma_build_kids_len(GEl { text_some: true, ..s }, rest, known); } },
+            RdItem::Ev(AbsEv::Empty(t)) => {
+                if g_tag_ok(t) {
+                    let r = g_parse_tag(s, t, known, None);
+                    if r.0 is Some {
+                        let s1 = r.0->Some_0;
+                        lemma_parse_tag_kids_len(s, t, known, None);
+                        let s2 = g_tag_opt(s1, utf8_str(t.name), Map::empty());
+                        lemma_tag_opt_frame(s1, utf8_str(t.name), Map::empty());
+                        lemma_build_kids_len(s2, rest, r.1);
+                    }
+                }
+            },
+            RdItem::Ev(AbsEv::Start(t)) => {
+                if g_tag_ok(t) {
+                    let cc = g_count_children(s, utf8_str(t.name));
+                    let r = g_parse_tag(s, t, known, Some(rest));
+                    if r.0 is Some {
+                        let s1 = r.0->Some_0;
+                        lemma_parse_tag_kids_len(s, t, known, Some(rest));
+                        let s2 = if cc.1 { g_tag_opt(s1, utf8_str(t.name), cc.0) } else { s1 };
+                        lemma_tag_opt_frame(s1, utf8_str(t.name), cc.0);
+                        if r.2.len() < p.len() { lemma_build_kids_len(s2, r.2, r.1); }
+                    }
+                }
+            },
+        }
+    }
+}
+
 } // verus!
